@@ -33,6 +33,9 @@ reaches the rules in the same shape:
   K17 [E(v) for v in (a, b, c)]   ->  [E(a), E(b), E(c)]  (a, b, c names,
                                       attribute chains or constants; at most
                                       four)
+  K18 for i in range(len(X)): .. X[i] ..  ->  for i, e in enumerate(X): .. e ..
+                                      (X a name the body only reads as X[i]
+                                      or len(X); i not re-bound)
   K9  t = delayed(f); t(x)        ->  delayed(f)(x)     (t bound once and
                                       used only as a callee)
 
@@ -194,6 +197,21 @@ class Canon(ast.NodeTransformer):
                               and isinstance(n.ctx, ast.Store)}
                 if t in bound:
                     shadowed |= {id(n) for n in ast.walk(inner)}
+            # a comprehension that binds ``t`` as its own loop variable has
+            # a scope of its own as well (its first iterable excepted: that
+            # is evaluated outside)
+            for comp in ast.walk(fn):
+                if not isinstance(comp, (ast.ListComp, ast.SetComp,
+                                         ast.DictComp, ast.GeneratorExp)):
+                    continue
+                bound = {n.id for g in comp.generators
+                         for n in ast.walk(g.target)
+                         if isinstance(n, ast.Name)}
+                if t in bound:
+                    outer_it = {id(n) for n in ast.walk(
+                        comp.generators[0].iter)}
+                    shadowed |= {id(n) for n in ast.walk(comp)
+                                 if id(n) not in outer_it}
             outside_loads = [n for n in ast.walk(fn)
                              if isinstance(n, ast.Name) and n.id == t
                              and id(n) not in inside_ids
@@ -648,8 +666,75 @@ class Canon(ast.NodeTransformer):
             self.applied["K3"] += 1
         return node
 
+    def _range_len_to_enumerate(self, node):
+        """K18  for i in range(len(X)): ... X[i] ...  ->
+                for i, e in enumerate(X): ... e ...
+        X a plain name that the body only reads as X[i] or len(X); i not
+        re-bound in the body; neither used after the loop in a way that the
+        rewrite changes (i keeps its meaning, e is new)."""
+        it = node.iter
+        if not (isinstance(node.target, ast.Name) and isinstance(
+                it, ast.Call) and isinstance(it.func, ast.Name)
+                and it.func.id == "range" and len(it.args) == 1
+                and not it.keywords and isinstance(it.args[0], ast.Call)
+                and isinstance(it.args[0].func, ast.Name)
+                and it.args[0].func.id == "len"
+                and len(it.args[0].args) == 1
+                and isinstance(it.args[0].args[0], ast.Name)
+                and not node.orelse):
+            return node
+        i, X = node.target.id, it.args[0].args[0].id
+        if i == X:
+            return node
+        parents = {}
+        for st in node.body:
+            for n in ast.walk(st):
+                for ch in ast.iter_child_nodes(n):
+                    parents[id(ch)] = n
+        hits = []
+        for st in node.body:
+            for n in ast.walk(st):
+                if isinstance(n, (ast.FunctionDef, ast.Lambda,
+                                  ast.AsyncFunctionDef)):
+                    return node
+                if isinstance(n, ast.Name) and n.id == i and isinstance(
+                        n.ctx, (ast.Store, ast.Del)):
+                    return node
+                if isinstance(n, ast.Name) and n.id == X:
+                    par = parents.get(id(n))
+                    if isinstance(par, ast.Subscript) and par.value is n \
+                            and isinstance(par.ctx, ast.Load) and \
+                            isinstance(par.slice, ast.Name) and \
+                            par.slice.id == i:
+                        hits.append(par)
+                        continue
+                    if isinstance(par, ast.Call) and isinstance(
+                            par.func, ast.Name) and par.func.id == "len" \
+                            and par.args == [n]:
+                        continue
+                    return node
+        var = f"_e{getattr(node, 'lineno', 0)}_{X}"
+
+        class Sub(ast.NodeTransformer):
+            def visit_Subscript(self, n):
+                if any(n is h for h in hits):
+                    return ast.copy_location(
+                        ast.Name(id=var, ctx=ast.Load()), n)
+                return self.generic_visit(n)
+        node.body = [Sub().visit(st) for st in node.body]
+        node.target = ast.Tuple(
+            elts=[ast.Name(id=i, ctx=ast.Store()),
+                  ast.Name(id=var, ctx=ast.Store())], ctx=ast.Store())
+        node.iter = ast.Call(func=ast.Name(id="enumerate", ctx=ast.Load()),
+                             args=[ast.Name(id=X, ctx=ast.Load())],
+                             keywords=[])
+        ast.fix_missing_locations(node)
+        self.applied["K18"] = self.applied.get("K18", 0) + 1
+        return node
+
     def visit_For(self, node):
         self.generic_visit(node)
+        node = self._range_len_to_enumerate(node)
         # K13  for x in E: yield x   ->   yield from E
         if isinstance(node.target, ast.Name) and not node.orelse and \
                 len(node.body) == 1 and isinstance(
